@@ -35,6 +35,7 @@ structure Dt where
   trigger : Int          -- trigger_time, 0 = not yet (downtime.ti:57)
   triggers : List Nat    -- downtime.ti:62
   owner : Bool           -- config_owner non-empty
+  trigBy : Nat           -- triggered_by (0 = empty)
   removed : Bool
   cleanup : Option Int   -- cleanup point of m_CleanupTimer (fires strictly after it); none = not armed
   starts : Nat           -- ghost: DowntimeStart notification requests
@@ -177,10 +178,13 @@ inductive Op
 def Op.now : Op → Int
   | .add _ n => n | .result _ _ n => n | .pump n => n | .remove _ _ n => n
 
-def newDt (p : AddP) (now : Int) : Dt :=
+/-- The object `AddDowntime` creates: `triggered_by` is set only when the named downtime exists
+    (downtime.cpp:266-268). -/
+def newDt (st : St) (p : AddP) (now : Int) : Dt :=
   { id := p.id, fixed := p.fixed, start := p.start, fin := p.fin, duration := p.duration, entry := now,
-    trigger := 0, triggers := [], owner := p.owner, removed := false, cleanup := none,
-    starts := 0, ends := 0, trigEv := 0, remEv := 0 }
+    trigger := 0, triggers := [], owner := p.owner,
+    trigBy := if p.trigBy != 0 && (findDt st.dts p.trigBy).isSome then p.trigBy else 0,
+    removed := false, cleanup := none, starts := 0, ends := 0, trigEv := 0, remEv := 0 }
 
 /-- `Checkable::GetProblem` (checkable.cpp:206-211): there is a check result and its state is not OK. -/
 def St.problem (st : St) : Bool := st.lastExec.isSome && !isOK st.kind st.state
@@ -202,7 +206,7 @@ def addTrigger (c : Nat) (d : Dt) : Dt :=
 def addOp (st : St) (p : AddP) (now : Int) : St × Nat :=
   if st.dts.any (fun d => d.id == p.id) then (st, 0)
   else
-    let d := newDt p now
+    let d := newDt st p now
     let hasParent := p.trigBy != 0 && (findDt st.dts p.trigBy).isSome
     let dts := st.dts ++ [d]
     let dts := startFlexible st now d dts
@@ -285,8 +289,8 @@ structure Obs where
   rc : Nat
   depth : Nat
   inDt : Bool
-  dts : List (Nat × Int)            -- existing downtimes (id, trigger_time), sorted by id
-  evs : List (Nat × Nat × Nat)      -- (event kind, id, count) during the operation, sorted
+  dts : List (Nat × Int)            -- existing downtimes (id, trigger_time)
+  evs : List (Nat × Nat × Nat)      -- (event kind, id, count) during the operation
   deriving Repr, DecidableEq
 
 def evLt (a b : Nat × Nat × Nat) : Bool :=
@@ -303,8 +307,12 @@ def evsOf (old : List Dt) (d : Dt) : List (Nat × Nat × Nat) :=
 
 def obsOf (old : St) (new : St) (rc : Nat) (now : Int) : Obs :=
   { rc := rc, depth := depth now new.dts, inDt := inDowntime now new.dts,
-    dts := sortBy (fun a b => a.1 < b.1) ((new.dts.filter (fun d => !d.removed)).map (fun d => (d.id, d.trigger))),
-    evs := sortBy evLt ((new.dts.map (evsOf old.dts)).flatten) }
+    dts := (new.dts.filter (fun d => !d.removed)).map (fun d => (d.id, d.trigger)),
+    evs := (new.dts.map (evsOf old.dts)).flatten }
+
+/-- Canonical order for comparing observations (the specification does not depend on the order). -/
+def Obs.canon (o : Obs) : Obs :=
+  { o with dts := sortBy (fun a b => a.1 < b.1) o.dts, evs := sortBy evLt o.evs }
 
 def stepObs (st : St) (op : Op) : St × Obs :=
   let p := step st op
